@@ -69,30 +69,56 @@ def run(module, cfg=None, timeout=600, workers=16, coverage=False, heap="8g", en
         e.update({k: str(v) for k, v in env.items()})
     res.cmd = " ".join(cmd[cmd.index("tlc2.TLC"):])
     t0 = time.time()
+    # TLC's output is read as a stream: generator runs print one TR line per behaviour (gigabytes in the thorough tiers);
+    # only the sampled behaviours and the other lines are kept.
+    import threading
+    keep = []
+    timed_out = []
     try:
-        p = subprocess.run(cmd, cwd=cwd or SPEC, env=e, capture_output=True, text=True, timeout=timeout)
-    except subprocess.TimeoutExpired as ex:
-        shutil.rmtree(meta, ignore_errors=True)
-        raise ToolFailure("TLC timeout after %ds: %s" % (timeout, res.cmd))
+        errf = open(os.path.join(meta, "stderr.txt"), "w+")
+        p = subprocess.Popen(cmd, cwd=cwd or SPEC, env=e, stdout=subprocess.PIPE, stderr=errf, text=True, bufsize=1 << 20)
+
+        def _kill():
+            timed_out.append(1)
+            try:
+                p.kill()
+            except Exception:
+                pass
+        wd = threading.Timer(timeout, _kill)
+        wd.daemon = True
+        wd.start()
+        try:
+            for ln in p.stdout:
+                ln = ln.rstrip("\n")
+                if collect_tr and ln.startswith("<<\"TR\""):
+                    m = _TR.match(ln)
+                    if m:
+                        res.n_tr += 1
+                        # sample_tr = (k, offset): keep every k-th behaviour (TLC prints in BFS order, a prefix is not representative)
+                        if (sample_tr is None or res.n_tr % sample_tr[0] == sample_tr[1] % sample_tr[0]) and \
+                                (max_tr is None or len(res.tr) < max_tr):
+                            res.tr.append(json.loads(_unescape(m.group(1))))
+                        continue
+                keep.append(ln)
+            p.wait()
+        finally:
+            wd.cancel()
+            if p.poll() is None:
+                p.kill()
+                p.wait()
+            try:
+                errf.seek(0)
+                res.stderr = errf.read()[-4000:]
+                errf.close()
+            except Exception:
+                res.stderr = ""
     finally:
         shutil.rmtree(meta, ignore_errors=True)
+    if timed_out:
+        raise ToolFailure("TLC timeout after %ds: %s" % (timeout, res.cmd))
     res.wall = time.time() - t0
-    out = p.stdout
-    res.out = out
-    lines = out.split("\n")
-    keep = []
-    for ln in lines:
-        if collect_tr:
-            m = _TR.match(ln)
-            if m:
-                res.n_tr += 1
-                # sample_tr = (k, offset): keep every k-th behaviour (TLC prints in BFS order, a prefix is not representative)
-                if (sample_tr is None or res.n_tr % sample_tr[0] == sample_tr[1] % sample_tr[0]) and \
-                        (max_tr is None or len(res.tr) < max_tr):
-                    res.tr.append(json.loads(_unescape(m.group(1))))
-                continue
-        keep.append(ln)
     text = "\n".join(keep)
+    res.out = text
     m = None
     for m in re.finditer(r"(\d+) states generated(?: \([^)]*\))?, (\d+) distinct states found", text):
         pass
@@ -137,7 +163,7 @@ def run(module, cfg=None, timeout=600, workers=16, coverage=False, heap="8g", en
     elif "Error:" in text:
         raise ToolFailure("TLC error:\n" + text[text.find("Error:"):][:3000])
     elif simulate is None and "Model checking completed. No error has been found." not in text:
-        raise ToolFailure("TLC did not complete:\n" + text[-2000:])
+        raise ToolFailure("TLC did not complete:\n" + text[-2000:] + "\n" + getattr(res, "stderr", "")[-1500:])
     res.ok = viol is None
     return res
 
